@@ -52,6 +52,15 @@ def _trace_viol(res, stage, field):
     return v
 
 
+def _replay_viol(res, field):
+    v = []
+    for r in res["mci_lr"].get("replay_verdicts", []):
+        d = r["mon"].get(field)
+        if d:
+            v.append(dict(stage="mci_lr", id=r["id"], iid=r["iid"], what=d[:6], kind="replay:" + field))
+    return v
+
+
 def _mci_viol(res, stage, prop):
     return [dict(stage=stage, id=r["id"], what=[[r["what"]]], w=r["w"], la=r["la"], kind="mci:" + r["what"])
             for r in res[stage]["verdicts"] if r["prop"] == prop]
@@ -157,9 +166,9 @@ PROPS = {
     "C06": dict(stages=["lex"], viol=_c06_viol),
     "C05": dict(stages=["tables", "resolve", "prec"], viol=_c05_viol),
     "C01": dict(stages=["tables", "lr", "mci_lr"],
-                viol=lambda res: _trace_viol(res, "lr", "c01") + _mci_viol(res, "mci_lr", "C01")),
+                viol=lambda res: _trace_viol(res, "lr", "c01") + _mci_viol(res, "mci_lr", "C01") + _replay_viol(res, "c01")),
     "C02": dict(stages=["tables", "lr", "mci_lr"],
-                viol=lambda res: _trace_viol(res, "lr", "c02") + _mci_viol(res, "mci_lr", "C02")
+                viol=lambda res: _trace_viol(res, "lr", "c02") + _mci_viol(res, "mci_lr", "C02") + _replay_viol(res, "c02")
                 + _wf_viol(res, "C02")),
     "C03": dict(stages=["tables", "glr", "mci_glr"],
                 viol=lambda res: _trace_viol(res, "glr", "c03") + _table_viol("C03")(res)
@@ -169,13 +178,13 @@ PROPS = {
                 viol=lambda res: _table_viol("C04")(res) + _mci_viol(res, "mci_lr", "C04")
                 + _mci_viol(res, "mc_automaton", "C04")),
     "C12": dict(stages=["tables", "lr", "mci_lr", "glr"],
-                viol=lambda res: _trace_viol(res, "lr", "c12") + _mci_viol(res, "mci_lr", "C12")
+                viol=lambda res: _trace_viol(res, "lr", "c12") + _mci_viol(res, "mci_lr", "C12") + _replay_viol(res, "c12")
                 + _trace_viol(res, "glr", "c12")),
     "C13": dict(stages=["tables", "lr", "glr"],
                 viol=lambda res: _trace_viol(res, "lr", "c13") + _trace_viol(res, "glr", "c13")),
     "C14": dict(stages=["tables", "lr"], viol=lambda res: _trace_viol(res, "lr", "c14")),
     "C15": dict(stages=["tables", "lr", "mci_lr", "glr"],
-                viol=lambda res: _trace_viol(res, "lr", "c15") + _mci_viol(res, "mci_lr", "C15")
+                viol=lambda res: _trace_viol(res, "lr", "c15") + _mci_viol(res, "mci_lr", "C15") + _replay_viol(res, "c15")
                 + _trace_viol(res, "glr", "c15")),
 }
 
